@@ -35,6 +35,8 @@ ParallelAction::ParallelAction(event::Loop &loop, Mode mode)
 { }
 
 ParallelAction::~ParallelAction() {
+    loop_.cancel(replay_run_id_);
+
     for (auto action : children_)
         delete action;
 }
@@ -101,6 +103,11 @@ void ParallelAction::onStart() {
 
 void ParallelAction::onStop() {
     stopAllActions();
+
+    held_child_results_.clear();
+    loop_.cancel(replay_run_id_);
+    replay_run_id_ = 0;
+
     AssembleAction::onStop();
 }
 
@@ -116,6 +123,19 @@ void ParallelAction::onResume() {
         if (action->state() == State::kPause)
             action->resume();
     }
+
+    //! 暂停期间收到的子动作结果，在恢复运行后重新处理
+    if (!held_child_results_.empty()) {
+        replay_run_id_ = loop_.runNext(
+            [this] {
+                replay_run_id_ = 0;
+                auto results = std::move(held_child_results_);
+                held_child_results_.clear();
+                for (auto &item : results)
+                    onChildFinished(item.first, item.second);
+            },
+            "ParallelAction::onResume, replay");
+    }
 }
 
 void ParallelAction::onReset() {
@@ -123,6 +143,11 @@ void ParallelAction::onReset() {
         child->reset();
 
     finished_children_.clear();
+
+    held_child_results_.clear();
+    loop_.cancel(replay_run_id_);
+    replay_run_id_ = 0;
+
     AssembleAction::onReset();
 }
 
@@ -150,6 +175,10 @@ void ParallelAction::onChildFinished(int index, bool is_succ) {
         } else if (finished_children_.size() == children_.size()) {
             finish(true);
         }
+
+    } else if (state() == State::kPause) {
+        //! 暂停期间先暂存，等恢复后再处理
+        held_child_results_.emplace_back(index, is_succ);
     }
 }
 
